@@ -2,6 +2,7 @@
 
 """PyFilesystem2 implementation of PyFAT."""
 import datetime
+import functools
 import posixpath
 import errno
 from copy import copy
@@ -26,6 +27,22 @@ from pyfatfs.FATDirectoryEntry import FATDirectoryEntry, make_lfn_entry
 from pyfatfs._exceptions import PyFATException
 from pyfatfs.FatIO import FatIO
 from pyfatfs.EightDotThree import EightDotThree
+
+
+def _fs_locked(func):
+    """Serialize a filesystem modification with PyFilesystem2's lock.
+
+    The in-memory FAT, the allocation hint and the directory tree are
+    shared state, every operation that modifies them has to run under
+    the filesystem-wide (re-entrant) lock, just like the compound helpers
+    of `fs.base.FS` do.
+    """
+    @functools.wraps(func)
+    def _wrapper(self, *args, **kwargs):
+        with self._lock:
+            return func(self, *args, **kwargs)
+
+    return _wrapper
 
 
 class PyFatFS(FS):
@@ -183,6 +200,7 @@ class PyFatFS(FS):
             raise e
         return [str(e) for e in dirs+files]
 
+    @_fs_locked
     def create(self, path: str, wipe: bool = False) -> bool:
         """Create a new file.
 
@@ -253,6 +271,7 @@ class PyFatFS(FS):
         self.fs.flush_fat()
         return True
 
+    @_fs_locked
     def makedir(self, path: str, permissions: Permissions = None,
                 recreate: bool = False):
         """Create directory on filesystem.
@@ -359,6 +378,7 @@ class PyFatFS(FS):
                 break
         dir_entry._parent = None
 
+    @_fs_locked
     def removedir(self, path: str):
         """Remove empty directories from the filesystem.
 
@@ -383,6 +403,7 @@ class PyFatFS(FS):
 
         self._remove(base, dir_entry)
 
+    @_fs_locked
     def removetree(self, dir_path: str):
         """Recursively remove the contents of a directory.
 
@@ -406,6 +427,7 @@ class PyFatFS(FS):
         except RemoveRootError:
             pass
 
+    @_fs_locked
     def remove(self, path: str):
         """Remove a file from the filesystem.
 
@@ -453,6 +475,7 @@ class PyFatFS(FS):
             self.fs.flush_fat()
         del dir_entry
 
+    @_fs_locked
     def openbin(self, path: str, mode: str = "r",
                 buffering: int = -1, **options):
         """Open file from filesystem.
@@ -484,7 +507,7 @@ class PyFatFS(FS):
             if info.is_dir:
                 raise FileExpected(path)
 
-        return FatIO(self.fs, path, mode)
+        return FatIO(self.fs, path, mode, lock=self._lock)
 
     def _get_dir_entry(self, path: str) -> FATDirectoryEntry:
         """Get a filesystem object for a path.
@@ -516,6 +539,7 @@ class PyFatFS(FS):
 
         return factory(self, path)
 
+    @_fs_locked
     def setinfo(self, path: str, info):
         """Set file meta information such as timestamps."""
         details = info.get('details', {})
